@@ -107,6 +107,7 @@ structure UpRes where
   log : List Ev
   created : List String := []
   err : Bool := false
+  rej : List String := []      -- fault plan: objects whose creation the API server rejects
   deriving Repr, DecidableEq, Inhabited
 
 /-- one target of the first loop of `Client.update`: create it when the cluster has no such
@@ -114,7 +115,9 @@ object, otherwise patch (or replace) the live object against the original manife
 def stepTarget (force three : Bool) (original : List Obj) (t : Obj) (r : UpRes) : UpRes :=
   let log1 := r.log ++ [.get t.key]
   match r.store.get? t.key with
-  | none => { r with store := r.store.put t, log := log1 ++ [.create t.key], created := r.created ++ [t.key] }
+  | none =>
+    if r.rej.contains t.key then { r with log := log1 ++ [.create t.key], err := true }   -- "failed to create resource"
+    else { r with store := r.store.put t, log := log1 ++ [.create t.key], created := r.created ++ [t.key] }
   | some live =>
     match original.find? (·.key = t.key) with
     | none => { r with log := log1, err := true }          -- "no X with the name ... found"
@@ -146,9 +149,13 @@ def deleteRemoved (target : List Obj) : List Obj → UpRes → UpRes
   | o :: rest, r => deleteRemoved target rest (stepDelete target o r)
 
 /-- `Client.update(original, target, force, threeWayMergeForUnstructured)` -/
-def update (force three : Bool) (original target : List Obj) (s : Store) : UpRes :=
-  let r := updateTargets force three original target { store := s, log := [] }
+def updateR (rej : List String) (force three : Bool) (original target : List Obj) (s : Store) : UpRes :=
+  let r := updateTargets force three original target { store := s, log := [], rej := rej }
   if r.err then r else deleteRemoved target original r
+
+/-- ... on a cluster that accepts every request -/
+def update (force three : Bool) (original target : List Obj) (s : Store) : UpRes :=
+  updateR [] force three original target s
 
 /-! ### ownership pre-flight -/
 
@@ -181,21 +188,23 @@ structure OpRes where
   ok : Bool
   deriving Repr, DecidableEq, Inhabited
 
-def installCluster (rel ns : String) (takeOwnership force dryRun : Bool) (manifest : List Obj) (s : Store) : OpRes :=
+def installCluster (rel ns : String) (takeOwnership force dryRun : Bool) (manifest : List Obj) (s : Store)
+    (rej : List String := []) : OpRes :=
   let resources := manifest.map (stamp rel ns)
   match preflight takeOwnership rel ns resources s with
   | (none, log) => ⟨s, log, false⟩
   | (some adopted, log) =>
     if dryRun then ⟨s, log, true⟩
     else if adopted.isEmpty then
-      -- Create: every resource is new
-      let s' := resources.foldl (fun acc r => acc.put r) s
-      ⟨s', log ++ resources.map (fun r => .create r.key), true⟩
+      -- Create: every resource is new; all are attempted (batchPerform does not stop at an error)
+      let s' := (resources.filter fun r => !rej.contains r.key).foldl (fun acc r => acc.put r) s
+      ⟨s', log ++ resources.map (fun r => .create r.key), !resources.any fun r => rej.contains r.key⟩
     else
-      let r := update force takeOwnership adopted resources s
+      let r := updateR rej force takeOwnership adopted resources s
       ⟨r.store, log ++ r.log, !r.err⟩
 
-def upgradeCluster (rel ns : String) (takeOwnership force dryRun : Bool) (current target : List Obj) (s : Store) : OpRes :=
+def upgradeCluster (rel ns : String) (takeOwnership force dryRun : Bool) (current target : List Obj) (s : Store)
+    (rej : List String := []) : OpRes :=
   let target' := target.map (stamp rel ns)
   let toBeCreated := target'.filter fun t => (current.find? (·.key = t.key)).isNone
   match preflight takeOwnership rel ns toBeCreated s with
@@ -203,11 +212,12 @@ def upgradeCluster (rel ns : String) (takeOwnership force dryRun : Bool) (curren
   | (some adopted, log) =>
     if dryRun then ⟨s, log, true⟩
     else
-      let r := update force false (current ++ adopted) target' s
+      let r := updateR rej force false (current ++ adopted) target' s
       ⟨r.store, log ++ r.log, !r.err⟩
 
-def rollbackCluster (rel ns : String) (force : Bool) (current target : List Obj) (s : Store) : OpRes :=
-  let r := update force false current (target.map (stamp rel ns)) s
+def rollbackCluster (rel ns : String) (force : Bool) (current target : List Obj) (s : Store)
+    (rej : List String := []) : OpRes :=
+  let r := updateR rej force false current (target.map (stamp rel ns)) s
   ⟨r.store, r.log, !r.err⟩
 
 def isSpace (c : Char) : Bool := c = ' ' || c = '\t' || c = '\n' || c = '\r' || c = '\x0b' || c = '\x0c'
